@@ -21,26 +21,32 @@ Theorem C08_layout_consistent :
   /\ lenN MAGIC = 4 /\ VERSION < W16 /\ OP_REWRITE < 256 /\ LIM_PTR = W48 - 1.
 Proof. exact layout_facts. Qed.
 
-(* read (write f) = Ok (normalize f) for ALL functions whose fields have the Rust types'
-   ranges (in_types) and whose tables fit the format (wf_sizes); with and without debug
-   assertions.  No bound on the size of f other than wf_sizes itself. *)
-Theorem C08_read_write : forall (dbg : bool) (f : func),
-  in_types f -> wf_sizes f -> read dbg (write f) = ROk (normalize f).
-Proof. exact read_write_lemma. Qed.
+(* try_serialize then deserialize = Ok (normalize f) for ALL functions whose fields have the Rust
+   types' ranges (in_types): whatever the writer returns, the reader reads back.  No size
+   hypothesis: the writer validates (check_function, /repo 6d687a0). *)
+Theorem C08_read_write : forall (dbg : bool) (f : func) (bs : list N),
+  in_types f -> write f = WOk bs -> read dbg bs = ROk (normalize f).
+Proof. exact read_write_full. Qed.
 
-(* the full statement without wf_sizes is false of the code: a count is written `as u16`
-   while all entries are written, so a function with 65 536 line-table entries reads back
-   "successfully" as a different function ... *)
-Theorem C08_write_truncates_refuted :
-  exists f, in_types f /\ exists g, read true (write f) = ROk g /\ read false (write f) = ROk g
-                                     /\ g <> normalize f.
-Proof. exact write_truncates_lemma. Qed.
+(* the writer succeeds exactly on the functions the format can represent and the reader accepts
+   (counts fit their fields and the reader's limits, nesting <= 64, markers have their function) *)
+Theorem C08_write_defined_iff : forall f : func,
+  (wf_sizes f -> write f = WOk (write_bytes f)) /\ (~ wf_sizes f -> exists e, write f = WErr e).
+Proof. intro f. split; [apply write_accepts_wf | apply write_rejects]. Qed.
 
-(* ... and "reading back what was written never fails" is false: the writer accepts 4 097
-   nested functions, the reader's MAX_NESTED_FUNCTIONS rejects them *)
-Theorem C08_read_back_fails_refuted :
-  exists f, in_types f /\ read true (write f) = RErr (ELimit 4) /\ read false (write f) = RErr (ELimit 4).
-Proof. exact read_back_fails_lemma. Qed.
+(* the two former defects are now errors of the writer: 65 536 line entries, 4 097 nested functions *)
+Theorem C08_writer_rejects_unrepresentable :
+  write trunc_witness = WErr (WLimit 6) /\ write toomany_witness = WErr (WLimit 4).
+Proof. exact (conj writer_rejects_truncation writer_rejects_toomany). Qed.
+
+(* about the OLD writer (write_bytes alone, before 6d687a0; kept as a record of the defect):
+   65 536 line entries were written with count 0 and read back as a different function,
+   4 097 nested functions were written and then rejected by the reader *)
+Theorem C08_unchecked_writer_was_lossy :
+  (exists f, in_types f /\ exists g, read true (write_bytes f) = ROk g /\ read false (write_bytes f) = ROk g
+                                     /\ g <> normalize f)
+  /\ (exists f, in_types f /\ read true (write_bytes f) = RErr (ELimit 4) /\ read false (write_bytes f) = RErr (ELimit 4)).
+Proof. exact (conj write_truncates_lemma read_back_fails_lemma). Qed.
 
 (* non-vacuity: a function with two levels of nested functions, every constant kind
    (int, string with multi-byte UTF-8, float, canonical NaN, bool, null, raw pointer, function
@@ -48,6 +54,6 @@ Proof. exact read_back_fails_lemma. Qed.
    is really changed by normalize *)
 Example C08_nonvacuous :
   in_types ex_top /\ wf_sizes ex_top
-  /\ read true (write ex_top) = ROk (normalize ex_top)
+  /\ (exists bs, write ex_top = WOk bs /\ read true bs = ROk (normalize ex_top))
   /\ normalize ex_top <> ex_top /\ height ex_top = 2.
 Proof. exact ex_top_ok. Qed.
